@@ -408,6 +408,8 @@ fn main() {
 								// the payload's own Debug impl panics at leaf x (user code inside a non-acquiring call)
 								for x in 0..n {
 									progs.push(vec![Stmt::Dbg(tgt, Some(x)), Stmt::Dbg(tgt, None), Stmt::Get, session(tgt, Api::Try, true, true, vec![], Exit::Drop)]);
+									// the payload's Debug returns Err(fmt::Error) instead of panicking
+									progs.push(vec![Stmt::Dbg(tgt, Some(x + 1000)), Stmt::Dbg(tgt, None), Stmt::Get, session(tgt, Api::Try, true, true, vec![], Exit::Drop)]);
 									if free_all(&held) && rw_all {
 										progs.push(vec![
 											Stmt::Get,
@@ -447,7 +449,8 @@ fn main() {
 								for prog in progs {
 									let c = base(format!("{family}{bi}"), n, &perm, &colls, &held, prog);
 									bi += 1;
-									let b = Budget { refusals: 0, faults: 1, max_runs: 300 };
+									// a transiently refused try inside Debug (another thread's reader/writer queue): still no waiting
+									let b = Budget { refusals: 1, faults: 1, max_runs: 400 };
 									sink_runs += explore(&c, b, &mut |c, r| out.emit(c, r));
 								}
 							}
